@@ -114,3 +114,49 @@ func vhPlanInheritsValidity() {
 		"the effective configuration of a planned certificate does not carry its own validity, or its profile's when it has none")
 	vAssert(len(eff.Extensions) == nExt, "the effective configuration of a planned certificate does not carry the profile's mandatory extension")
 }
+
+// vhRejectAmongValid: C09 last sentence for hierarchies: a root with three
+// subordinates (or a root, an intermediate and two leaves) all under a
+// profile that demands C and CN; at most one entity - at any position of the
+// planner's walk - has a subject that violates the profile. Planning fails
+// iff there is such an entity, whatever comes after it in the walk, returns
+// no change list with the failure, and does not touch the database.
+func vhRejectAmongValid() {
+	d := &vDB{}
+	at := func(arc int, v string) pkix.RelativeDistinguishedNameSET {
+		return pkix.RelativeDistinguishedNameSET{pkix.AttributeTypeAndValue{Type: asn1.ObjectIdentifier{2, 5, 4, arc}, Value: v}}
+	}
+	prof := config.CertificateProfile{Name: "p", SubjectAttributes: config.ProfileSubjectAttributes{AllowOther: false,
+		Attributes: []config.ProfileSubjectAttribute{{Attribute: "C"}, {Attribute: "CN"}}}}
+	d.AddProfile(prof)
+	shape := vChoose("shape", 2)
+	parents := [][]int{{-1, 0, 0, 0}, {-1, 0, 1, 1}}[shape]
+	bad := vChoose("rejected", 5) - 1 // -1: nobody
+	how := vChoose("how", 2)
+	arts := []int{vChoose("artifacts", 2)} // every entity without artifact, or every entity with certificate and key
+	for i := 0; i < 4; i++ {
+		vMakeEntityN(d, i, parents[i], arts, []int{0})
+		e := d.ents[i]
+		e.cfg.Profile = "p"
+		// RDNSequence is stored reversed: written "C=DE, CN=ei"
+		e.cfg.Subject = pkix.RDNSequence{at(3, e.alias), at(6, "DE")}
+		if i == bad {
+			if how == 0 {
+				e.cfg.Subject = pkix.RDNSequence{at(3, e.alias), at(7, "Town"), at(6, "DE")} // foreign attribute
+			} else {
+				e.cfg.Subject = pkix.RDNSequence{at(3, e.alias)} // C missing
+			}
+		}
+	}
+	strat := UpdateStrategy(vInt("strat", 0, 31))
+	list, err := PlanBulkUpdate(d, strat)
+	if bad < 0 {
+		vReach("accepted")
+		vAssert(err == nil, "planning failed although every subject satisfies its profile")
+	} else {
+		vReach("rejected")
+		vAssert(err != nil, "a certificate whose subject violates its profile did not stop the run (other entities follow it in the walk)")
+		vAssert(len(list) == 0, "a change list was returned together with a validation failure")
+	}
+	vAssert(len(d.log) == 0, "planning modified the database")
+}
